@@ -109,15 +109,20 @@ def r02_2(chk: Check, A, B):
            key="deton-residual", how=how)
     chk.ob("R02.2", fo.where(), "matchDeton: v+ = vw and T+ = Tnucl", outer.get("vp") == exo.sym("vw") and outer.get("Tp") == Tn,
            f"vp={outer.get('vp')}, Tp={outer.get('Tp')}", key="deton-front")
-    # v- from the junction relations at the root
-    vm_ok = False
-    for st in own_nodes(fo.node):
-        if isinstance(st, ast.Assign) and n(st.targets[0]) == "vm" and "sqrt" in n(st.value):
-            vm_ok = n(st.value).replace(" ", "") == "np.sqrt(vpvm/vpovm)"
-    tup = [st for st in own_nodes(fo.node) if isinstance(st, ast.Assign) and isinstance(st.targets[0], ast.Tuple)
-           and [n(e) for e in st.targets[0].elts] == ["vpvm", "vpovm"]]
-    ok = vm_ok and len(tup) == 1 and n(tup[0].value) == "self.vpvmAndvpovm(Tp, Tm)"
-    chk.ob("R02.2", fo.where(), "matchDeton: v- = sqrt(vpvm/vpovm) from vpvmAndvpovm(Tp, Tm) at the root", ok, key="deton-vm")
+    # v- from the junction relations at the root (term level: independent of local names)
+    rp = [p_ for p_ in exo.paths(fo) if p_.raised is None and isinstance(p_.value, tuple) and len(p_.value) == 4]
+    okv = None
+    detail = f"{len(rp)} return paths"
+    for p_ in rp:
+        vp_, vm_, Tp_, Tm_ = p_.value
+        if not isinstance(vm_, sp.Basic) or not vm_.free_symbols:
+            continue  # the vp == 1 special case
+        Bd = drop_ite(B).subs({Tp: Tp_, Tm: Tm_}, simultaneous=True)
+        okv, howv = is_zero(drop_ite(vm_) ** 2 - Bd, chk.seed)
+        detail = howv
+        okv = okv and Tp_ == Tn and vp_ == exo.sym("vw") and "root" in str(Tm_)
+    chk.ob("R02.2", fo.where(), "matchDeton returns (vw, v-, Tn, T-root) with v-^2 == vpvm/vpovm evaluated at (Tn, T-root)", okv, detail,
+           key="deton-vm", how=detail)
     chk.floor("R02.2", 7)
 
 
